@@ -1,6 +1,7 @@
 -------------------------- MODULE MetaMigrationGenW --------------------------
 (* Worlds for schedule generation (M->C).  checks/C42.py overwrites this module in its scratch copy with the
    worlds of the tier; counts are in UNITS of 1000/budget real index keys (the real budget is 1000). *)
+EXTENDS Integers
 GenWorlds ==
   { [nc |-> 2, nA |-> <<3, 1>>, nH |-> <<1, 1>>, budget |-> 2, ver0 |-> v, drift |-> <<v = 9 \/ d, v = 9>>, gone0 |-> {}] :
       v \in {9, 10}, d \in BOOLEAN }
